@@ -873,61 +873,8 @@ func (c *pieceCtx) r7(rule string) {
 		cnt := extractOf(call, 0)
 		switch relPkg(f) {
 		case "peer":
-			// every protocol.Piece literal carrying buf is dominated by cnt == requested length
-			found := false
-			allInstrs(f, func(in ssa.Instruction) {
-				mi, ok := in.(*ssa.MakeInterface)
-				if !ok {
-					return
-				}
-				sl := litOf(mi)
-				if sl == nil || sl.Type != "protocol.Piece" {
-					return
-				}
-				found = true
-				key := fmt.Sprintf("%s/Piece{Data}-after-full-read", fname(f))
-				if sl.Fields["Data"] != buf {
-					r.Fail(rule, key, in.Pos(), "the uploaded Piece carries a buffer other than the one filled by ReadAt")
-					return
-				}
-				// the length the buffer was allocated with
-				var want ssa.Value
-				if gb, ok := buf.(*ssa.Call); ok && len(gb.Call.Args) == 1 {
-					want = gb.Call.Args[0]
-				}
-				full := false
-				tt := &Taint{stores: map[*ssa.Function]map[*types.Var]bool{}}
-				for _, g := range guardsOf(in.Block()) {
-					g = g.norm()
-					bo, ok := g.Cond.(*ssa.BinOp)
-					if !ok || cnt == nil {
-						continue
-					}
-					eq := (bo.Op == token.EQL && g.Pol) || (bo.Op == token.NEQ && !g.Pol)
-					if !eq {
-						continue
-					}
-					var other ssa.Value
-					if bo.X == cnt {
-						other = bo.Y
-					} else if bo.Y == cnt {
-						other = bo.X
-					} else {
-						continue
-					}
-					if want != nil && (other == want || tt.sameLoadVal(other, want)) {
-						full = true
-					}
-					if isLenOf(other, buf) {
-						full = true
-					}
-				}
-				r.Check(full, rule, key, in.Pos(), "data is sent only when ReadAt filled the whole requested length (verified bytes only)",
-					"the Piece message is not dominated by `count returned by ReadAt == requested length`: a short read (incomplete/evicted piece, range past the piece) would be answered with stale or zero bytes")
-			})
-			if !found {
-				r.Info(rule, fname(f)+"/no-Piece-literal", cs.Pos(), "ReadAt called in peer without constructing a Piece")
-			}
+			// judged at the sinks below (every protocol.Piece built in package peer)
+			_, _ = buf, cnt
 		case "tor":
 			// Reader.Read: the returned count and the position increment are ReadAt's count
 			key := fmt.Sprintf("%s/returns-ReadAt-count", fname(f))
@@ -954,7 +901,122 @@ func (c *pieceCtx) r7(rule string) {
 			r.Fail(rule, "unexpected-consumer/"+fname(f), cs.Pos(), "ReadAt is called from %s: a new consumer of piece bytes the rule table does not know", fname(f))
 		}
 	}
+	// sinks: every protocol.Piece message built in package peer carries a buffer that ReadAt filled completely.
+	// The buffer may be read in the same function (guarded by count == requested length) or come back from a
+	// package-local helper every non-nil return of which satisfies the same condition (readBlock).
+	nSink := 0
+	for _, f := range p.SrcFuncs() {
+		if relPkg(f) != "peer" {
+			continue
+		}
+		allInstrs(f, func(in ssa.Instruction) {
+			mi, ok := in.(*ssa.MakeInterface)
+			if !ok {
+				return
+			}
+			sl := litOf(mi)
+			if sl == nil || sl.Type != "protocol.Piece" {
+				return
+			}
+			nSink++
+			r.Fn(f)
+			key := fmt.Sprintf("%s/Piece{Data}-after-full-read", fname(f))
+			data := sl.Fields["Data"]
+			if data == nil {
+				r.Ok(rule, key, in.Pos(), "a Piece without data")
+				return
+			}
+			ok2, why := c.fullyReadAt(data, in, readAt, 0)
+			if ok2 {
+				r.Ok(rule, key, in.Pos(), "data is sent only when ReadAt filled the whole requested length (verified bytes only)")
+			} else {
+				r.Fail(rule, key, in.Pos(), "%s", why)
+			}
+		})
+	}
+	r.Sentinel(rule+".sinks", nSink, 1)
 	r.Sentinel(rule, n, 3)
+}
+
+// fullyReadAt: at instruction `at`, v is nil or a buffer that Pieces.ReadAt filled completely.
+func (c *pieceCtx) fullyReadAt(v ssa.Value, at ssa.Instruction, readAt *ssa.Function, depth int) (bool, string) {
+	if depth > 4 {
+		return false, "the origin of the uploaded buffer is too indirect to analyse"
+	}
+	if isNilConst(v) {
+		return true, ""
+	}
+	f := at.Parent()
+	short := "the Piece message is not dominated by `count returned by ReadAt == requested length`: a short read (incomplete/evicted piece, range past the piece) would be answered with stale or zero bytes"
+	switch x := v.(type) {
+	case *ssa.Phi:
+		for _, e := range x.Edges {
+			if ok, why := c.fullyReadAt(e, at, readAt, depth+1); !ok {
+				return false, why
+			}
+		}
+		return true, ""
+	case *ssa.Extract:
+		if call, ok := x.Tuple.(*ssa.Call); ok {
+			if h := call.Call.StaticCallee(); h != nil && h.Blocks != nil && relPkg(h) == relPkg(f) && !call.Call.IsInvoke() {
+				for _, ret := range returnsOf(h) {
+					res := retResults(ret)
+					if x.Index >= len(res) {
+						return false, short
+					}
+					if ok, why := c.fullyReadAt(res[x.Index], ret, readAt, depth+1); !ok {
+						return false, why
+					}
+				}
+				return true, ""
+			}
+		}
+	}
+	// a buffer handed to ReadAt in this function
+	var call *ssa.Call
+	allInstrs(f, func(in ssa.Instruction) {
+		if cc, ok := in.(*ssa.Call); ok && cc.Call.StaticCallee() == readAt && len(cc.Call.Args) > 1 && cc.Call.Args[1] == v {
+			call = cc
+		}
+	})
+	if call == nil {
+		return false, "the uploaded Piece carries a buffer other than one filled by Pieces.ReadAt"
+	}
+	if !instrDominates(call, at) {
+		return false, "the uploaded buffer is not filled by ReadAt on every path"
+	}
+	cnt := extractOf(call, 0)
+	var want ssa.Value
+	if gb, ok := v.(*ssa.Call); ok && len(gb.Call.Args) == 1 {
+		want = gb.Call.Args[0]
+	}
+	tt := &Taint{stores: map[*ssa.Function]map[*types.Var]bool{}}
+	for _, g := range guardsOf(at.Block()) {
+		g = g.norm()
+		bo, ok := g.Cond.(*ssa.BinOp)
+		if !ok || cnt == nil {
+			continue
+		}
+		eq := (bo.Op == token.EQL && g.Pol) || (bo.Op == token.NEQ && !g.Pol)
+		if !eq {
+			continue
+		}
+		var other ssa.Value
+		if bo.X == cnt {
+			other = bo.Y
+		} else if bo.Y == cnt {
+			other = bo.X
+		} else {
+			continue
+		}
+		if want != nil && (other == want || tt.sameLoadVal(other, want)) {
+			return true, ""
+		}
+		if isLenOf(other, v) {
+			return true, ""
+		}
+	}
+	return false, short
 }
 
 func instrReaches(a, b ssa.Instruction) bool {
